@@ -607,29 +607,72 @@ func runC07(c *h.Ctx) {
 			}
 			cs.Cover("api_GetMany")
 		}
-		// DOM load (recursive) and re-read of scalar leaves at the first level
-		tree := pg.PathNode{Node: root.Node}
-		if err := tree.Load(true, opts, desc); err != nil {
-			cs.Viol("pread:Load:error", "err", err)
-		} else {
+		// DOM load (recursive and lazy) and Children listing: every first-level child is re-read as a whole, and
+		// the elements of list and map children through the single-step accessors of the child node
+		domCheck := func(api string, kids []pg.PathNode) {
 			cnt := 0
 			m.Range(func(fd protoreflect.FieldDescriptor, v protoreflect.Value) bool { cnt++; return true })
-			if len(tree.Next) != cnt {
-				cs.Viol("pread:Load:child-count", "got", len(tree.Next), "want", cnt)
+			if len(kids) != cnt {
+				cs.Viol("pread:"+api+":child-count", "got", len(kids), "want", cnt)
 			}
-			for i := range tree.Next {
-				ch := &tree.Next[i]
+			for i := range kids {
+				ch := &kids[i]
 				fd := pc.Root.Fields().ByNumber(protoreflect.FieldNumber(ch.Path.Id()))
 				if fd == nil || !m.Has(fd) {
-					cs.Viol("pread:Load:unexpected-child", "id", ch.Path.Id())
+					cs.Viol("pread:"+api+":unexpected-child", "id", ch.Path.Id())
 					continue
 				}
-				if !fd.IsList() && !fd.IsMap() && fd.Kind() != protoreflect.MessageKind {
-					v := pg.Value{Node: ch.Node, Desc: desc.Message().ByNumber(dproto.FieldNumber(fd.Number())).Type()}
-					c07Check(cs, "Load", v, pnode{path: []pg.Path{ch.Path}, fd: fd, v: m.Get(fd)}, opts)
+				v := pg.Value{Node: ch.Node, Desc: desc.Message().ByNumber(dproto.FieldNumber(fd.Number())).Type()}
+				if !c07Check(cs, api, v, pnode{path: []pg.Path{ch.Path}, fd: fd, v: m.Get(fd)}, opts) {
+					continue
+				}
+				switch {
+				case fd.IsMap():
+					n := 0
+					m.Get(fd).Map().Range(func(k protoreflect.MapKey, mv protoreflect.Value) bool {
+						var e pg.Value
+						var kp pg.Path
+						if fd.MapKey().Kind() == protoreflect.StringKind {
+							e, kp = v.GetByStr(k.String()), pg.NewPathStrKey(k.String())
+						} else {
+							e, kp = v.GetByInt(pIntKey(fd.MapKey(), k)), pg.NewPathIntKey(pIntKey(fd.MapKey(), k))
+						}
+						c07Check(cs, api+"+Get", e, pnode{path: []pg.Path{ch.Path, kp}, fd: fd, v: mv, kind: 2, depth: 1}, opts)
+						n++
+						return n < 4
+					})
+					cs.Cover("dom_map_child_elements")
+				case fd.IsList():
+					l := m.Get(fd).List()
+					for k := 0; k < l.Len() && k < 4; k++ {
+						c07Check(cs, api+"+Index", v.Index(k), pnode{path: []pg.Path{ch.Path, pg.NewPathIndex(k)}, fd: fd, v: l.Get(k), kind: 1, depth: 1}, opts)
+					}
+					cs.Cover("dom_list_child_elements")
 				}
 			}
-			cs.Cover("api_Load")
+		}
+		for _, recurse := range []bool{true, false} {
+			api := "Load"
+			if !recurse {
+				api = "Load-lazy"
+			}
+			tree := pg.PathNode{Node: root.Node}
+			if err := tree.Load(recurse, opts, desc); err != nil {
+				cs.Viol("pread:"+api+":error", "err", err)
+				continue
+			}
+			domCheck(api, tree.Next)
+			cs.Cover("api_" + api)
+		}
+		{
+			var kids []pg.PathNode
+			recurse := cs.R.Bool()
+			if err := root.Node.Children(&kids, recurse, opts, desc); err != nil {
+				cs.Viol("pread:Children:error", "err", err)
+			} else {
+				domCheck("Children", kids)
+				cs.Cover("api_Children")
+			}
 		}
 		if cs.I == 2 {
 			cs.Sample(map[string]interface{}{"proto": pc.Text, "message": fmt.Sprint(m), "bytes": hexs(b), "paths": len(nodes)})
